@@ -54,6 +54,8 @@ func NewFloatListDecoder(reuseRecords bool) *FloatListDecoder {
 }
 
 func (d *FloatListDecoder) makeFloatSlice(n uint32) []float64 {
+	// n may come from an untrusted stream: allocate at most 1024 entries up front
+	n = minUint32(n, 1024)
 	if d.sl == nil {
 		return make([]float64, 0, n)
 	}
